@@ -8,6 +8,7 @@ import (
 	"fmt"
 	"os"
 	"path/filepath"
+	"regexp"
 	"sort"
 	"strings"
 	"time"
@@ -78,7 +79,11 @@ func cmdCheck(args []string) {
 	vdir := fs.String("verif", "/verif", "")
 	prop := fs.String("property", "", "property id")
 	tier := fs.String("tier", "quick", "quick|thorough")
+	out := fs.String("out", "", "directory that receives evidence/ and replays/ (default: the -verif directory)")
 	fs.Parse(args)
+	if *out == "" {
+		*out = *vdir
+	}
 	if t := os.Getenv("VERIF_TIER"); t == "quick" || t == "thorough" {
 		*tier = t
 	}
@@ -95,12 +100,17 @@ func cmdCheck(args []string) {
 		os.Exit(2)
 	}
 	loadS := time.Since(t0).Seconds()
-	timeout := 10
+	// per solver call; every obligation claimed discharges in a fraction of this on the unchanged tree
+	timeout := 20
 	if *tier == "thorough" {
-		timeout = 60
+		timeout = 90
 	}
-	solver := NewSolver(filepath.Join(*vdir, ".work", *prop), filepath.Join(*vdir, ".cache"), timeout, seed)
-	defer os.RemoveAll(filepath.Join(*vdir, ".work", *prop))
+	cache := filepath.Join(*out, ".cache")
+	if *tier == "thorough" {
+		cache = "" // thorough re-solves every obligation
+	}
+	solver := NewSolver(filepath.Join(*out, ".work", *prop), cache, timeout, seed)
+	defer os.RemoveAll(filepath.Join(*out, ".work", *prop))
 	rr := verify(c, func(ct *Contract) bool { return contractMentions(ct, *prop) },
 		func(name string, tags []string) bool { return hasTag(tags, *prop) }, solver, false)
 
@@ -116,7 +126,7 @@ func cmdCheck(args []string) {
 	}
 	type violation struct {
 		name, why, detail string
-		r              *OblResult
+		r                 *OblResult
 	}
 	var viols []violation
 	var knownHit []string
@@ -147,8 +157,8 @@ func cmdCheck(args []string) {
 		if ok {
 			nDis++
 		}
-		if r.Seconds > slowest {
-			slowest = r.Seconds
+		if r.MaxPathS > slowest {
+			slowest = r.MaxPathS
 		}
 		if len(samples) < 12 {
 			samples = append(samples, map[string]interface{}{"obligation": r.Name, "status": r.Status, "paths": r.Paths, "solver": r.Solver, "solver_s": round2(r.Seconds), "query_bytes": r.QueryLen, "clause": r.Src, "where": r.Where})
@@ -193,7 +203,7 @@ func cmdCheck(args []string) {
 	for _, l := range knownHit {
 		fmt.Println(l)
 	}
-	replayDir := filepath.Join(*vdir, "replays", *prop)
+	replayDir := filepath.Join(*out, "replays", *prop)
 	if len(viols) > 0 {
 		os.MkdirAll(replayDir, 0755)
 	}
@@ -248,7 +258,8 @@ func cmdCheck(args []string) {
 		"solver_seconds":           solverS,
 		"solver_calls":             solver.Calls,
 		"solver_cache_hits":        solver.Hits,
-		"slowest_obligation_s":     round2(slowest),
+		"slowest_solver_call_s":    round2(slowest),
+		"solver_timeout_s":         timeout,
 		"assumed_contracts":        assumed,
 		"out_of_subset":            outOfSubset,
 		"known_findings":           knownHit,
@@ -261,9 +272,9 @@ func cmdCheck(args []string) {
 		ev.Assumptions = append(ev.Assumptions, a+": "+rr.Assumed[a])
 	}
 	ev.Assumptions = append(ev.Assumptions, propertyAssumptions[*prop]...)
-	os.MkdirAll(filepath.Join(*vdir, "evidence"), 0755)
+	os.MkdirAll(filepath.Join(*out, "evidence"), 0755)
 	b, _ := json.MarshalIndent(ev, "", " ")
-	os.WriteFile(filepath.Join(*vdir, "evidence", *prop+".json"), b, 0644)
+	os.WriteFile(filepath.Join(*out, "evidence", *prop+".json"), b, 0644)
 	fmt.Printf("%s: %d obligations, %d discharged, %d known findings, %d violations (%d functions, %.1fs)\n", *prop, nObl, nDis, len(knownHit), len(viols), len(rr.Funcs), time.Since(t0).Seconds())
 	if len(viols) > 0 {
 		os.Exit(1)
@@ -278,6 +289,8 @@ func round2(f float64) float64 { return float64(int(f*100+0.5)) / 100 }
 
 // per-property statements of what the obligations do not cover (kept next to the claim)
 var propertyAssumptions = map[string][]string{}
+
+var frozenKind = regexp.MustCompile(`#(ensures|inv):|#dec@|#alloc@\d+:|^lemma:`)
 
 // cmdFreeze records the names of the obligations that discharge on the current tree.
 func cmdFreeze(args []string) {
@@ -300,9 +313,12 @@ func cmdFreeze(args []string) {
 		solver := NewSolver(filepath.Join(*vdir, ".work", "freeze"), filepath.Join(*vdir, ".cache"), 10, 0)
 		rr := verify(c, func(ct *Contract) bool { return contractMentions(ct, p) },
 			func(name string, tags []string) bool { return hasTag(tags, p) }, solver, false)
+		// Only obligations that stem from a contract clause are frozen. The zero-annotation safety
+		// obligations (nil@N, slice@N, bounds@N, conv@N, pre(call@N), frame@...) are numbered by position
+		// in the body: a harmless edit renumbers them, and demanding them by name would be a false alarm.
 		var names []string
 		for _, r := range rr.Results {
-			if r.Cover {
+			if r.Cover || !frozenKind.MatchString(r.Name) {
 				continue
 			}
 			names = append(names, r.Name)
